@@ -88,8 +88,10 @@ def oracle(spec, o, m):
     """list of (signature, message); empty = the statement holds on this building"""
     sig0 = {"model": spec["kind"], "shape": spec["shape"], "temperature_dependent": spec["shape"] != "flat"}
     if not o["ok"]:
-        return [(dict(sig0, failure="fit_raised", exception=o["exception"].split(":")[0]),
-                 "fitting a building of the family raised %s" % o["exception"])]
+        sig = dict(sig0, failure="fit_raised", exception=o["exception"].split(":")[0])
+        if spec["shape"] == "flat" and spec["noise"] == "none" and sig["exception"] == "AttributeError":
+            sig["finding_class"] = "constant-meter-no-combination"
+        return [(sig, "fitting a building of the family raised %s" % o["exception"])]
     fails = []
 
     # cause attribution through the hook (cause H of DESIGN section 6): a two-sided smooth fit whose optimiser vector has
@@ -102,12 +104,26 @@ def oracle(spec, o, m):
                 and h["readback_gap"] > 0.01 * m["mean_in"])
     readback_broken = any(crossed_readback(h) for part in ("initial", "final") for h in o[part].values())
 
+    # second attributed cause (D16 / pinned_readback of DESIGN C12): fit_c_hdd_tidd pinned the balance point of a one-sided
+    # final fit to T_min / T_max (recorded row with equal ends) and the stored curve (balance point moved to T_*_seg by
+    # reduce_model) differs from the scored one by more than 1 % of mean usage
+    def pinned_readback(h):
+        b = h.get("bnds")
+        return (h.get("key") == "c_hdd_tidd" and b is not None and len(b) == 3 and b[0][0] == b[0][1]
+                and h.get("readback_gap") is not None and h["readback_gap"] > 0.01 * m["mean_in"])
+    pinned_broken = any(pinned_readback(h) for h in o["final"].values())
+
     def cls(failure):
         s = dict(sig0, failure=failure)
         if spec["kind"] == "billing" and failure.startswith("nrmse") and spec["shape"] != "flat":
             s["finding_class"] = "billing-dilution"
         elif readback_broken:
             s["finding_class"] = "crossed-balance-points-readback"
+        elif pinned_broken:
+            s["finding_class"] = "pinned-balance-point-readback"
+        elif (spec["kind"] == "daily" and spec["noise"] == "none" and len(o["submodels"]) > 1 and m["nrmse_in_ok"]
+              and failure in ("nrmse_second_year", "spurious_heating_load", "spurious_cooling_load")):
+            s["finding_class"] = "noise-free-seasonal-split"
         return s
     if not m["nrmse_in_ok"]:
         fails.append((cls("nrmse_baseline"), "NRMSE against the generating curve on the baseline = %.4f > 0.05" % m["nrmse_in"]))
@@ -221,7 +237,8 @@ def make_specs(run):
     if run.quick():
         zones = rng.sample(L.ZONES, len(L.ZONES))
         # the fragile corners of the family, one random building per shape, two billing meters
-        specs += L.sentinel_specs(rng, "daily")
+        # (exactly noise-free meters are left to the corpus and to the thorough tier)
+        specs += L.sentinel_specs(rng, "daily", noises=L.NOISE_KINDS[:3])
         plan = [("daily", sh) for sh in L.SHAPES] + [("billing", "flat"), ("billing", None)]
         for k, (kind, sh) in enumerate(plan):
             specs.append(L.gen_spec(rng, kind, shape=sh, tz=zones[k % len(zones)], noise=L.NOISE_KINDS[k % 3]))
